@@ -6,6 +6,7 @@ package document
 
 import (
 	"fmt"
+	"sort"
 	"strings"
 
 	"github.com/yorkie-team/yorkie/api/converter"
@@ -189,3 +190,18 @@ func vConverged(tag string, ds ...*Document) {
 }
 
 func vName(prefix string, i int) string { return fmt.Sprintf("%s%d", prefix, i) }
+
+// vPresenceOf renders what replica d knows about actor id ("<none>" if absent).
+func vPresenceOf(d *Document, id time.ActorID) string {
+	data, ok := d.AllPresences()[id.String()]
+	if !ok {
+		return "<none>"
+	}
+	var parts []string
+	for k, v := range data {
+		parts = append(parts, k+"="+v)
+	}
+	sort.Strings(parts)
+	return "{" + strings.Join(parts, ",") + "}"
+}
+
